@@ -272,6 +272,29 @@ def run(ctx):
     g.check("token_types", "lexer rule i of the ATN carries the token type given by its position among the non-fragment "
             "rules of the g4 (fragments: 0), so rule order = token-type order", token_types)
 
+    def alt_order():
+        # the runtime resolves equal-length matches by the ORDER OF THE ALTERNATIVES of the mode's start state (lowest alt wins), not by
+        # token type: these edges must lead to the token rules in rule order, otherwise "earliest rule wins ties" is not what runs
+        atn = ctx.lexer_atn()
+        start = atn.states[atn.modes[0]]
+        targets = [e.target for e in start.edges]
+        rules = []
+        for t in targets:
+            st = atn.states[t]
+            rules.append(st.rule)
+        token_rules = [i for i, tt in enumerate(atn.rule_token_type) if tt != 0]
+        if rules != token_rules:
+            k = [i for i in range(min(len(rules), len(token_rules))) if rules[i] != token_rules[i]]
+            pos = k[0] if k else min(len(rules), len(token_rules))
+            names = [r.name for r in ctx.grammar().lexer_rules]
+            nm = lambda r: names[r] if r is not None and r < len(names) else str(r)
+            return False, "alternative %d of the tokens start state enters rule %s, rule order prescribes %s" % (
+                pos, nm(rules[pos]) if pos < len(rules) else None, nm(token_rules[pos]) if pos < len(token_rules) else None), \
+                {"position": pos, "atn_rule": rules[pos] if pos < len(rules) else None, "g4_rule": token_rules[pos] if pos < len(token_rules) else None}
+        return True, "%d alternatives in rule order" % len(rules)
+    g.check("alt_order", "the alternatives of the lexer's start state enter the token rules in the order of the g4 (the runtime's tie-break "
+            "between equally long matches is the alternative order)", alt_order)
+
     def actions():
         grammar, atn = ctx.grammar(), ctx.lexer_atn()
         got = atn_actions_by_rule(atn)
